@@ -445,10 +445,17 @@ Section P_Filter.
     destruct (index LPAREN s) as [l|] eqn:El; [|eauto]. destruct (rindex RPAREN s) as [r|] eqn:Er; [|eauto].
     apply index_Some in El as [_ [Hl _]]. apply rindex_lt in Er.
     set (L := N.of_nat l). set (R := N.of_nat r). set (ln := sub64 (sub64 R L) 1).
-    destruct (N.eqb_spec ln 0) as [|Hnz]; [cbn [orb]; eauto|]. cbn [orb].
+    assert (HLfr : L < s_st_fread_n c) by (unfold L, len in Hl, Hsl, Hg |- *; lia).
+    assert (KEY : (if s_st_empty_ok c then R <? L else ln =? 0) = false -> ln < s_st_comm_limit c -> L < R /\ ln = R - L - 1).
+    { intros Eb Hlim. pose proof Hnowrap as Hw. destruct (s_st_empty_ok c).
+      - apply N.ltb_ge in Eb. unfold ln, sub64 in *. unfold two64 in *.
+        destruct (N.leb_spec L R); [|lia]. destruct (N.leb_spec 1 (R - L)); [lia|].
+        exfalso. assert (E0 : R - L = 0) by lia. rewrite E0 in Hlim. lia.
+      - apply N.eqb_neq in Eb. apply (sub64_len L R (s_st_comm_limit c) (s_st_fread_n c)); assumption. }
+    destruct (if s_st_empty_ok c then R <? L else ln =? 0) eqn:Eb; [cbn [orb]; eauto|]. cbn [orb].
     destruct (N.leb_spec (s_st_comm_limit c) ln) as [|Hlim]; [eauto|].
-    destruct (sub64_len L R (s_st_comm_limit c) (s_st_fread_n c)) as [HLR Hln]; [unfold L, len in Hl, Hsl, Hg |- *; lia|exact Hnowrap|exact Hnz|exact Hlim|].
-    fold ln in Hln. assert (HR : R < len s) by (unfold R, len; lia).
+    destruct (KEY eq_refl Hlim) as [HLR Hln].
+    assert (HR : R < len s) by (unfold R, len; lia).
     destruct (N.leb_spec (L + 1 + ln) (len s + 1)); [|lia]. cbn [bind].
     set (comm_src := takeS ln (dropN (L + 1) s)).
     assert (Hcs : len comm_src = ln) by (unfold comm_src; rewrite takeS_eq, len_takeN, len_dropN; lia).
